@@ -471,6 +471,11 @@ class MinFlowDecomp(pathmodel.AbstractPathModelDAG): # Note that we inherit from
                 left=right_node_index - MinFlowDecomp.subgraph_lowerbound_size, 
                 right=right_node_index)
 
+            # A window with no edge whose flow must be explained (e.g. only isolated nodes or ignored edges) gives no lower bound
+            if not any(self.flow_attr in data and (u, v) not in self.edges_to_ignore for u, v, data in subgraph.edges(data=True)):
+                right_node_index = min(right_node_index + MinFlowDecomp.subgraph_lowerbound_shift, self.G.number_of_nodes() - 1)
+                continue
+
             subgraph_subpath_constraints = [c for c in self.subpath_constraints if all(n in subgraph.nodes() for n in c)]
             subgraph_edges_to_ignore = [e for e in self.edges_to_ignore if all(n in subgraph.nodes() for n in e)]
             
